@@ -16,6 +16,12 @@
   Round 4 (last section): generalised power blocks at the stepped point itself (the open cone and
   its dual are convex) and PSD blocks in original coordinates (congruence with the NT scaling):
   `interior_preserved_all_cones`, `interior_preserved_all_nonsym`, `all_iterates_interior_genpow`.
+
+  Round 5 (last section): `unit_initialization` of generalised power blocks is interior, so the
+  trajectory theorem for all nonsymmetric cones starts from `unit_initialization`
+  (`all_iterates_interior_all_nonsym`); PSD blocks enter the trajectory theorem under the named
+  per-pass hypothesis `PsdPassOk` (`accepted_step_interior_all_cones`,
+  `all_iterates_interior_all_cones`).
 -/
 import ClarabelProofs.Lemmas.LoopPrefix
 import ClarabelProofs.Lemmas.LoopStep
@@ -31,6 +37,8 @@ import ClarabelProofs.Lemmas.StepKAllCones
 import ClarabelProofs.Lemmas.StepKAccept
 import ClarabelProofs.Lemmas.LoopSwitch
 import ClarabelProofs.Lemmas.StepKTotal
+import ClarabelProofs.Lemmas.StepKInitGenPow
+import ClarabelProofs.Lemmas.StepKPsdTraj
 
 namespace Clarabel.C07
 open Clarabel Clarabel.Loop Clarabel.Loop.Step
@@ -795,5 +803,136 @@ example : (Blk.psd (⟨1, #[1], #[1], #[1], #[1], #[]⟩ : PsdTri.Cone ℝ) (som
     · simp [PsdStep.nrm2, PsdStep.qform, PsdStep.scaledDir, PsdTri.svecToMat, PsdIndex.triangularNumber]
 
 end examples4
+
+end Clarabel.C07
+
+/-! ## Round 5: generalised power blocks from `unit_initialization`; PSD blocks in the trajectory under `PsdPassOk` -/
+namespace Clarabel.C07
+open Clarabel Clarabel.StepK Clarabel.Loop Clarabel.Loop.Step
+
+/-- [R] `GenPowCone::unit_initialization`: the point `z = s = (√(1+αᵢ))ᵢ ⊕ 0` lies in
+`int K* × int K` (`GenPowInterior`: `u > 0`, `‖w‖² = 0 < Π (uᵢ/αᵢ)^{2αᵢ}` resp. `< Π uᵢ^{2αᵢ}`) for
+positive exponents summing to one, whatever the numbers of trailing zeros. -/
+theorem unit_initialization_genpow_interior (al : Array ℝ) (hal : ∀ a ∈ al.toList, 0 < a)
+    (hsum : al.toList.sum = 1) (dz ds : Nat) :
+    GenPowInterior al (GenPow.unitInitialization al dz) (GenPow.unitInitialization al ds) :=
+  StepK.genpow_unit_interior al hal hsum dz ds
+
+/-- [R] `C07.init_interior` (problems with a nonsymmetric cone), **generalised power blocks
+included**: after `unit_initialization` the iterate is interior (`Pt.InteriorG`) with `τ = κ = 1` —
+zero / nonnegative / second-order / exponential / power / generalised power cones in any
+combination (`Blk.UnitShapeG`: as `Blk.UnitShape`, and for a generalised power block positive
+exponents summing to one and slices at least as long as `α`).  Extends `init_interior_unit`. -/
+theorem init_interior_unit_genpow (p : Pt ℝ) (h : ∀ b ∈ p.blks, b.UnitShapeG) :
+    ∃ p', StepK.unitInitialization p = .ok p' ∧ p'.InteriorG ∧ p'.τ = 1 ∧ p'.κ = 1 :=
+  StepK.unit_init_interiorG p h
+
+/-- [R] `C07.all_iterates_interior` **for all nonsymmetric cones, from `unit_initialization`**
+(`all_iterates_interior_unit` had no generalised power blocks, `all_iterates_interior_genpow` an
+assumed interior start): for a problem over zero / nonnegative / second-order / exponential / power /
+generalised power cones, every iterate of every solve that starts from `unit_initialization` is
+interior, whatever directions (of the right shape) the numerics supply. -/
+theorem all_iterates_interior_all_nonsym {c : StepCfg} (hc : c.Ok) {cfg : Loop.Config ℝ} (p p0 : Pt ℝ)
+    (hsh : ∀ b ∈ p.blks, b.UnitShapeG) (h0 : StepK.unitInitialization p = .ok p0)
+    {l : List (Pt ℝ)} (h : Traj c cfg p0 l) : ∀ q ∈ l, q.InteriorG :=
+  StepK.Traj.interiorG_unit hc p p0 hsh h0 h
+
+/-- [R] `C07.step_in_unit` / accepted pass, **all seven cone kinds**.  `Pt.InteriorAllP`: `τ, κ > 0`,
+zero … power blocks as `Blk.Interior`, generalised power blocks `GenPowInterior`, PSD blocks
+`mat z ≻ 0 ∧ mat s ≻ 0` in original coordinates.  `AcceptedPassP` is `AcceptedPass` plus the
+**named per-pass hypothesis `PsdPassOk q`** on the pass's iterate-with-direction `q`: for every PSD
+block `.psd K γz γs z s dz ds` of `q`, both `eigvals` calls answered, C15's spectral contract
+(`PsdContract`: `Λisqrt = Λ^{-1/2} > 0`, `γz`/`γs` least eigenvalues of the scaled directions) and
+C13's Nesterov–Todd contract `NtOk K z s` — "this pass's `update_scaling` re-established
+`W z = λ = W⁻ᵀ s`, `R·R⁻¹ = I` at the current point".  That is assumed, not proved (it is what the
+harness can check pass by pass); everything else is derived: the new iterate is interior for all
+seven cone kinds and `0 < a`, `min_terminate_step_length < a ≤ α ≤ f·min(1, ατ, ακ) ≤ f < 1`. -/
+theorem accepted_step_interior_all_cones {c : StepCfg} (hc : c.Ok) {cfg : Loop.Config ℝ}
+    {sc : Loop.Scaling} {p p' : Pt ℝ} (h : AcceptedPassP c cfg sc p p') (hI : p.InteriorAllP) :
+    p'.InteriorAllP ∧ ∃ q α a, Pt.SamePoint p q ∧ PsdPassOk q ∧ p' = StepK.addStep q a ∧
+      StepK.calcStepLength c.maxValue c.ls q true c.f = .ok α ∧
+      0 < a ∧ cfg.minTerminateStepLength < a ∧ a ≤ α ∧
+      α ≤ c.f * alphaMax q.τ q.κ q.dτ q.dκ c.maxValue ∧ α ≤ c.f ∧ a < 1 :=
+  h.interiorAllP hc hI
+
+/-- [R] `C07.all_iterates_interior`, **all seven cone kinds**: every iterate of a solve that starts
+from a point interior for all cone kinds (`Pt.InteriorAllP`) is interior for all cone kinds,
+**provided every accepted pass of the solve meets `PsdPassOk`** — `TrajP` is `Traj` with
+`AcceptedPassP` in place of `AcceptedPass` (`traj_p_is_traj`), i.e. the hypothesis is attached to
+each pass that reaches `add_step`; passes that end before `add_step` and `reset_to_prev_iterate`
+carry no obligation.  Assumed: the interior start and `PsdPassOk` per accepted pass; derived: the
+rest (directions arbitrary of the right shape). -/
+theorem all_iterates_interior_all_cones {c : StepCfg} (hc : c.Ok) {cfg : Loop.Config ℝ} {p0 : Pt ℝ}
+    (h0 : p0.InteriorAllP) {l : List (Pt ℝ)} (h : TrajP c cfg p0 l) : ∀ p ∈ l, p.InteriorAllP :=
+  h.interiorAllP hc h0
+
+/-- [S] `TrajP` only adds a hypothesis: forgetting it gives a `Traj` -/
+theorem traj_p_is_traj {c : StepCfg} {cfg : Loop.Config ℝ} {p0 : Pt ℝ} {l : List (Pt ℝ)}
+    (h : TrajP c cfg p0 l) : Traj c cfg p0 l :=
+  h.toTraj
+
+/-- [S] …and without PSD blocks the hypothesis is void: every `AcceptedPass` from an iterate
+without PSD blocks is an `AcceptedPassP` -/
+theorem accepted_pass_p_of_no_psd {c : StepCfg} {cfg : Loop.Config ℝ} {sc : Loop.Scaling}
+    {p p' : Pt ℝ} (h : AcceptedPass c cfg sc p p') (hn : ∀ b ∈ p.blks, b.NotPsd) :
+    AcceptedPassP c cfg sc p p' :=
+  h.toP hn
+
+/-! ### non-vacuity -/
+section examples5
+
+/-- exponents `(½, ½)` meet the hypotheses of `unit_initialization_genpow_interior` -/
+example : (∀ a ∈ (#[1 / 2, 1 / 2] : Array ℝ).toList, 0 < a) ∧ (#[1 / 2, 1 / 2] : Array ℝ).toList.sum = 1 :=
+  ⟨by intro a ha; simp at ha; subst ha; norm_num, by norm_num⟩
+
+/-- a nonnegative block and a generalised power block `α = (½, ½)` with slices of length 3 -/
+noncomputable def exUnitG : Pt ℝ :=
+  { x := #[0], dx := #[0],
+    blks := [.nn #[0, 0] #[0, 0] #[] #[], .genpow #[1 / 2, 1 / 2] #[0, 0, 0] #[0, 0, 0] #[] #[]],
+    τ := 0, κ := 0, dτ := 0, dκ := 0 }
+
+/-- shapes covered by `init_interior_unit_genpow` -/
+example : ∀ b ∈ exUnitG.blks, b.UnitShapeG := by
+  intro b hb
+  simp only [exUnitG, List.mem_cons, List.not_mem_nil, or_false] at hb
+  rcases hb with rfl | rfl
+  · rfl
+  · exact ⟨by intro a ha; simp at ha; subst ha; norm_num, by norm_num, by decide, by decide⟩
+
+/-- the hypotheses of `all_iterates_interior_all_nonsym` are met (one-point trajectory from
+`unit_initialization` of `exUnitG`) -/
+example : ∃ p0, (∀ b ∈ exUnitG.blks, b.UnitShapeG) ∧ StepK.unitInitialization exUnitG = .ok p0 ∧
+    Traj ⟨100, ⟨4 / 5, 1 / 10000, 100⟩, 99 / 100, 4 / 5⟩
+      (⟨10, 0, false, ⟨0, 0, 0, 0, 0, 0⟩, ⟨0, 0, 0, 0, 0, 0⟩, 1 / 10, 1 / 10000, true, true, true⟩ :
+        Loop.Config ℝ) p0 [p0] := by
+  have hsh : ∀ b ∈ exUnitG.blks, b.UnitShapeG := by
+    intro b hb
+    simp only [exUnitG, List.mem_cons, List.not_mem_nil, or_false] at hb
+    rcases hb with rfl | rfl
+    · rfl
+    · exact ⟨by intro a ha; simp at ha; subst ha; norm_num, by norm_num, by decide, by decide⟩
+  obtain ⟨p0, e, _⟩ := StepK.unit_init_interiorG exUnitG hsh
+  exact ⟨p0, hsh, e, .start⟩
+
+/-- an iterate with a nonnegative and a PSD block that is interior for all cone kinds, and whose
+pass data meet `PsdPassOk` -/
+example : StepK.exPsd.InteriorAllP ∧ PsdPassOk StepK.exPsd :=
+  ⟨StepK.exPsd_interiorAllP, StepK.exPsd_psdPassOk⟩
+
+/-- an accepted pass with a PSD block under `PsdPassOk` exists (`calc_step_length = 0.99 · ½`), and
+with it a two-point `TrajP` from an `InteriorAllP` start -/
+example : ∃ cfg : Loop.Config ℝ, ∃ p',
+    AcceptedPassP ⟨100, ⟨4 / 5, 1 / 10000, 100⟩, 99 / 100, 4 / 5⟩ cfg .PrimalDual StepK.exPsd p' ∧
+    TrajP ⟨100, ⟨4 / 5, 1 / 10000, 100⟩, 99 / 100, 4 / 5⟩ cfg StepK.exPsd [p', StepK.exPsd] := by
+  obtain ⟨cfg, p', h⟩ := StepK.exPsd_acceptedPassP
+  exact ⟨cfg, p', h, .step _ .start h⟩
+
+/-- a pass without PSD blocks (`exNN`): the hypothesis of `accepted_pass_p_of_no_psd` -/
+example : ∀ b ∈ exNN.blks, b.NotPsd := by
+  intro b hb
+  simp only [exNN, List.mem_singleton] at hb
+  subst hb; trivial
+
+end examples5
 
 end Clarabel.C07
